@@ -583,7 +583,10 @@ CircuitExec::StageRun CircuitExec::runStage(Circuit &c, int opIndex, const Op &o
         verdict("C01", "failed-legalization-modified-placement", tag + " (" + r.out.str() + "): " + why, opIndex);
         verdict("C10", "failed-legalization-modified-placement", tag + " (" + r.out.str() + "): " + why, opIndex);
       }
-      if (libraryOwnFailure && !r.paramsRejected) stat("probe_legalization_threw_infeasible");
+      if (libraryOwnFailure && !r.paramsRejected) {
+        stat("probe_legalization_threw_infeasible");
+        stat("fault_infeasible_legalization");
+      }
     }
     if (r.allocFaultFired && !r.out.returned() && stage == 1 && r.callbacks == 0) {
       std::string why;
